@@ -483,9 +483,17 @@ These obligations fail when a memory order is weakened, an index field stops bei
 replaced by a plain access, a fence is dropped, or a payload access moves across the publishing store. -/
 
 open Librfn.Skeleton in
-/-- access sites (kind, object, memory order, branch context) of every function of ringbuf.c, in order, and
-the declared types of `ringbuf_t`'s fields, equal the table the model was written against -/
-theorem skeleton_matches_ring : Librfn.Gen.Skeleton.ringbuf = Librfn.Model.RingConc.skeleton := by decide
+/-- fields of `ringbuf_t` that are written once by `ringbuf_init`, before the threads exist -/
+def ringConfig : List String := ["rb->bufp", "rb->buf_len"]
+
+/-- the shared accesses of every function of ringbuf.c (operation, object, memory orders, conditional / in a loop), in
+order, and the declared types of `ringbuf_t`'s fields, are those of the table the model was written against; the
+configuration fields are written by `ringbuf_init` only (`Librfn.Skeleton.CUnit.core`: reads of those fields and the numbering
+of branch constructs are not part of the comparison; helper functions are inlined by the extraction) -/
+theorem skeleton_matches_ring :
+    Librfn.Gen.Skeleton.ringbuf.core ringConfig = Librfn.Model.RingConc.skeleton.core ringConfig ∧
+    Librfn.Gen.Skeleton.ringbuf.fields = Librfn.Model.RingConc.skeleton.fields ∧
+    Librfn.Gen.Skeleton.ringbuf.configNeverWritten ringConfig ["ringbuf_init"] = true := by decide
 
 /-- C07 (a): every atomic operation and fence of ringbuf.c is `seq_cst` -/
 theorem ring_ord_all_seqcst : Librfn.Gen.Skeleton.ringbuf.allSeqCst = true := by decide
@@ -507,15 +515,12 @@ open Librfn.Skeleton in
 payload load of `ringbuf_get` comes after its load of `writei` and before its store of `readi`
 (stated on the extracted table, unconditional sites only) -/
 theorem ring_payload_inside_publish :
-    (∃ a b c, siteIdx Librfn.Gen.Skeleton.ringbuf "ringbuf_put" (fun s => s.kind == .load && s.obj == "rb->readi") = some a ∧
-              siteIdx Librfn.Gen.Skeleton.ringbuf "ringbuf_put" (fun s => s.kind == .plainWrite && s.obj == "rb->bufp[]" && s.ctx == []) = some b ∧
-              siteIdx Librfn.Gen.Skeleton.ringbuf "ringbuf_put" (fun s => s.kind == .store && s.obj == "rb->writei" && s.ctx == []) = some c ∧
-              a < b ∧ b < c) ∧
-    (∃ a b c, siteIdx Librfn.Gen.Skeleton.ringbuf "ringbuf_get" (fun s => s.kind == .load && s.obj == "rb->writei") = some a ∧
-              siteIdx Librfn.Gen.Skeleton.ringbuf "ringbuf_get" (fun s => s.kind == .plainRead && s.obj == "rb->bufp[]" && s.ctx == []) = some b ∧
-              siteIdx Librfn.Gen.Skeleton.ringbuf "ringbuf_get" (fun s => s.kind == .store && s.obj == "rb->readi" && s.ctx == []) = some c ∧
-              a < b ∧ b < c) := by
-  refine ⟨⟨3, 5, 7, ?_⟩, ⟨1, 3, 7, ?_⟩⟩ <;> decide
+    inOrder3 Librfn.Gen.Skeleton.ringbuf "ringbuf_put" (fun s => s.kind == .load && s.obj == "rb->readi")
+      (fun s => s.kind == .plainWrite && s.obj == "rb->bufp[]" && !ctxConditional s.ctx)
+      (fun s => s.kind == .store && s.obj == "rb->writei" && !ctxConditional s.ctx) = true ∧
+    inOrder3 Librfn.Gen.Skeleton.ringbuf "ringbuf_get" (fun s => s.kind == .load && s.obj == "rb->writei")
+      (fun s => s.kind == .plainRead && s.obj == "rb->bufp[]" && !ctxConditional s.ctx)
+      (fun s => s.kind == .store && s.obj == "rb->readi" && !ctxConditional s.ctx) = true := by decide
 
 /-! ### Non-vacuity: concrete states that meet the hypotheses above -/
 
